@@ -34,6 +34,11 @@ type Case struct {
 	PanicHandler bool `json:"panic_handler"`
 	// PHDelayUs makes the panic handler take this long (a slow reporter).
 	PHDelayUs int `json:"ph_delay_us,omitempty"`
+	// CancelLast: every publish carries a context of its own, and the last
+	// handler in subscription order - if it is synchronous and panics, and
+	// no handler is asynchronous - cancels that context just before it
+	// panics.  Nothing is left to skip, so the outcome must not change.
+	CancelLast bool `json:"cancel_last,omitempty"`
 	// ambient configuration that must not change the outcome
 	Obs   bool `json:"obs,omitempty"`   // an Observability implementation is installed
 	Hooks bool `json:"hooks,omitempty"` // before/after publish hooks are installed
@@ -166,6 +171,12 @@ func run(c *Case) *vkit.Outcome {
 	}
 	bus := eventbus.New(opts...)
 
+	anyAsync := false
+	for _, h := range c.Handlers {
+		anyAsync = anyAsync || h.Async
+	}
+	cancelLast := c.CancelLast && !anyAsync
+	var cancels sync.Map // event id -> context.CancelFunc
 	body := func(hi int, id int) {
 		h := c.Handlers[hi]
 		mu.Lock()
@@ -178,6 +189,11 @@ func run(c *Case) *vkit.Outcome {
 		mu.Unlock()
 		_ = n
 		if h.Panic == "always" || (h.Panic == "nth" && id == h.N) {
+			if cancelLast && hi == len(c.Handlers)-1 {
+				if f, ok := cancels.Load(id); ok {
+					f.(context.CancelFunc)()
+				}
+			}
 			panic(panicValue(h.ValKind, hi, id))
 		}
 	}
@@ -221,7 +237,12 @@ func run(c *Case) *vkit.Outcome {
 					o.Failf("", "publish %d: panic reached the publisher: %v", p, r)
 				}
 			}()
-			if p%2 == 0 {
+			if cancelLast {
+				ctx, cancel := context.WithCancel(context.Background())
+				cancels.Store(p, cancel)
+				defer cancel()
+				eventbus.PublishContext(bus, ctx, Ev{p})
+			} else if p%2 == 0 {
 				eventbus.PublishContext(bus, context.Background(), Ev{p})
 			} else {
 				eventbus.Publish(bus, Ev{p})
@@ -304,6 +325,11 @@ func run(c *Case) *vkit.Outcome {
 			o.Failf("", "%d handler invocations panicked, observability saw %d handler completions with an error", len(wantPH), obsErrs)
 		}
 		o.Class("with_observability")
+	}
+	if cancelLast {
+		if h := c.Handlers[len(c.Handlers)-1]; h.Panic != "" {
+			o.Class("last_handler_cancels_the_publish_context_then_panics")
+		}
 	}
 	if c.PHDelayUs > 0 {
 		for _, h := range c.Handlers {
